@@ -70,6 +70,18 @@ def build(P):
                 "CHAR": ["'a'", "vc"], "STRING": ['"ab"', "vs", '""'], "DATE": ["1/2/2003", "vd"], "ENUM": ["Red", "ve"],
                 "ENUM2": ["Line", "ve2"], "POINTER": ["vp"], "RECORD": ["va"], "NONE": ["(vi <- 1)"]}
 
+    def cast_matrix():
+        srcs = ["0", "1", "- 1", "65", "255", "256", "300", "9223372036854775807", "2.5", "- 2.5", "0.0", "65.9", "1e30", "TRUE", "FALSE", "'a'", "'0'", "' '", "\"\"", "\"a\"", "\"abc\"", "\"12\"",
+                "\"2.5\"", "\"TRUE\"", "\"true\"", "\"FALSE\"", "\"1/2/2003\"", "\"31/2/2003\"", "\"x/y/z\"", "1/2/2003", "29/2/2024", "vi", "vr", "vb", "vc", "vs", "vd", "ve", "ve2", "vp", "vp2", "va", "Red",
+                "vi + 1", "(vr)", "LENGTH(vs)", "vd = vd"]
+        out = []
+        for tgt in ["INTEGER", "REAL", "BOOLEAN", "CHAR", "STRING", "DATE"]:
+            for sv in srcs:
+                out.append("%s(%s)" % (tgt, sv))
+                out.append("vs <- \"keep\"")   # the session stays usable after a refused cast
+        out += ["INTEGER(REAL(\"7\"))", "STRING(INTEGER(\"12\") + 1)", "CHAR(INTEGER('A') + 1)", "BOOLEAN(STRING(TRUE))", "DATE(STRING(vd))", "STRING(DATE(\"5/6/2007\"))", "INTEGER(vd)", "DATE(INTEGER(vd))"]
+        return out
+
     # ------------------------------------------------------------------ C02
     def c02_cases(tier, seed):
         r = rng_for(seed, "C02")
@@ -245,6 +257,9 @@ def build(P):
             ents.append("INT(%s)" % x.replace("-", "- "))
         for k, ch in enumerate(chunks(ents, 700)):
             yield ("conversions", [repl_case("C17-conv-%d" % k, ch, meta=dict(units=ch))])
+        # cast matrix: every cast target applied to values of every type (literals, boundary values, variables of the user-defined types)
+        for k, ch in enumerate(chunks(cast_matrix(), 400)):
+            yield ("cast-matrix", [repl_case("C17-cast-%d" % k, SETUP + ch, meta=dict(units=ch, skip=len(SETUP)))])
         # random longer strings
         ents = []
         for i in range(sizes(tier, 300, 5000)):
@@ -470,4 +485,6 @@ def build(P):
                     "as REPL entries (expected position computed by the harness); every ordered pair of distinct enum sizes 1..4 x 7 store channels as programs "
                     "(must be a runtime error, target unchanged); procedure-level definitions called repeatedly; unit = one arithmetic entry / one program")
 
+    global CAST_MATRIX, CAST_SETUP
+    CAST_MATRIX, CAST_SETUP = cast_matrix, SETUP
     return {"C02": C02, "C17": C17, "C18": C18, "C19": C19}
